@@ -33,6 +33,7 @@ def parseOp17 (t : List String) : Option R17.Op :=
   | [_, _, "injectrst", sa, sp, da, dp] => do some (.injectrst ⟨← ip sa, ← sp.toNat?⟩ ⟨← ip da, ← dp.toNat?⟩)
   | [_, _, "drain"] => some .drain
   | [_, _, "netstat"] => some .netstat
+  | [_, _, "pumpn", n] => do some (.pumpn (← n.toNat?))
   | _ => none
 
 /-- `CFG hosts=3 h0=4:10,4:11 h1=- ...` → address lists. -/
